@@ -166,7 +166,8 @@ def rooms(
         dtype=int,
     )
 
-    if len(y_splits) != len(set(y_splits)):
+    # rooms need an interior: consecutive splits must be at least 2 apart
+    if np.any(np.diff(y_splits) < 2):
         raise ValueError(
             f'insufficient height ({shape.height}) for layout ({layout})'
         )
@@ -178,7 +179,8 @@ def rooms(
         dtype=int,
     )
 
-    if len(x_splits) != len(set(x_splits)):
+    # rooms need an interior: consecutive splits must be at least 2 apart
+    if np.any(np.diff(x_splits) < 2):
         raise ValueError(
             f'insufficient width ({shape.width}) for layout ({layout})'
         )
@@ -535,7 +537,8 @@ def memory_rooms(
         dtype=int,
     )
 
-    if len(y_splits) != len(set(y_splits)):
+    # rooms need an interior: consecutive splits must be at least 2 apart
+    if np.any(np.diff(y_splits) < 2):
         raise ValueError(
             f'insufficient shape.height ({shape.height}) for layout ({layout})'
         )
@@ -547,7 +550,8 @@ def memory_rooms(
         dtype=int,
     )
 
-    if len(x_splits) != len(set(x_splits)):
+    # rooms need an interior: consecutive splits must be at least 2 apart
+    if np.any(np.diff(x_splits) < 2):
         raise ValueError(
             f'insufficient shape.width ({shape.width}) for layout ({layout})'
         )
